@@ -30,7 +30,11 @@ MANIFEST = dict(
          'reach): a by-construction oracle on the real specs_to_ir - every generated legal model under two layouts must '
          'compile, and each of ~100 rule-violation injectors (DESIGN Appendix A: S1-S10, A1-A34, B1-B26, C1-C13) applied '
          'at sampled sites of such models (through aliases, imports, patches, deeper inheritance, other files and file '
-         'orders) must be refused with InvalidSpec.',
+         'orders) must be refused with InvalidSpec; every rule whose violation can be reached through an alias (A12, A15, '
+         'Map key, A21, A22, A23, A27, A28, B2) is injected again behind chains of two and three aliases and behind a '
+         'chain that crosses an import; the argument rules of annotations (B18 / B22) are evaluated on a grid of '
+         'argument shapes for every built-in annotation type and four custom ones (fe.annargs) against an independent '
+         'statement of the rules.',
     note='Trusted: Lean kernel, translator, generators and injectors (what they never produce is never checked), CPython re '
          '(whether a pattern compiles is an external parameter of the model). The iff for whole specs is observed by '
          'testing only. Not judged: booleans used as numeric arguments, null for an optional argument, min > max for '
@@ -63,6 +67,7 @@ def run(ck):
     fe_rules.suite_violations(ck)
     fe_rules.suite_params(ck, report='C01')
     fe_rules.suite_names(ck, report='C01')
+    fe_rules.suite_annargs(ck, report='C01')
     ck.assumptions.extend([
         'identifiers and namespace names are ASCII ([a-zA-Z_][a-zA-Z0-9_-]*; no "/" in a namespace name), so str.lower is Char.toLower',
         'the empty pattern compiles (re.compile("")); whether any other pattern compiles is asked of CPython',
